@@ -92,6 +92,12 @@ def evaluate(h, meta, lines, tags, ans):
                     # a swallowed failure is only acceptable if nothing depends on the failed call
                     yield (f"a file-system call failed ({failed_calls[0]}) during `{lines[li][:40]}` but the operation reported success", li, "err io", a,
                            D12_SIG if fault_in_merge else None)
+            elif a.startswith("err") and failed_calls and fault_seen is not None and fault_seen != li:
+                # exactly one call is made to fail per run; a call that fails later was not injected: it fails because of
+                # the state the earlier fault left behind (e.g. EEXIST when a file id is handed out twice)
+                yield (f"`{lines[li][:40]}` failed on its own ({failed_calls[0]}) after the earlier injected fault: the store did not stay usable", li, "ok", a,
+                       D12_SIG if fault_in_merge else None)
+                return
             elif a.startswith("err") and not failed_calls:
                 yield (f"`{lines[li][:40]}` failed although no file-system call of it failed (the store did not stay usable after the earlier fault)", li, "ok", a,
                        D12_SIG if fault_in_merge else None)
